@@ -4,7 +4,7 @@ from harness.props import base
 
 PROP = {
     "id": "C07",
-    "quick_n": 260,
+    "quick_n": 400,
     "thorough_n": 6000,
     "rule": "one program = tree spec, two copies a, b filled with different streams (one side often "
             "empty; sparse keys often disjoint), s = a + b, a += b, then further fills of b and of "
